@@ -103,6 +103,11 @@ def record_rank_trace(ptn, rng, model, d, L, ndraws=3, maxcells=60000):
 
 def run(ctx):
     ptn = common.import_repo()
+    target = None
+    if ctx.replay is not None:
+        rp = ctx.replay['replay']
+        ctx.seed, ctx.tier = int(rp.get('seed', ctx.seed)), str(rp.get('tier', ctx.tier))
+        target = (rp.get('kind'), rp.get('index'))
     rng = random.Random(ctx.seed * 32452843 + 20)
     ctx.rule = ('model: OpChains.tla width bound over all chain multisets; traces: (a) one per random chain list compiled by the '
                 'real code, (b) one per (model, L) with one record per cut carrying the dense operator reshaped across the '
@@ -125,13 +130,20 @@ def run(ctx):
     cl_traces = [c05.record_compile(ptn, c['L'], c['idoid'], c['chains'], c['phys']) for c in cl_cases]
     for c in cl_cases:
         ctx.count(c, nontrivial=len(c['chains']) >= 2)
+    off1 = 0
+    if target is not None:
+        if target[0] == 'chains' and target[1] is not None and 0 <= int(target[1]) < len(cl_traces):
+            off1 = int(target[1])
+            cl_cases, cl_traces = [cl_cases[off1]], [cl_traces[off1]]
+        elif target[0] == 'rank':
+            cl_cases, cl_traces = [], []
     bad = validate_chunks(ctx, 'TraceOpChains', 'tcw', cl_traces, chunk=ctx.pick(40, 300),
                           relax=lambda tr: [r for r in tr if r.get('ev') not in ('site', 'partition', 'cover')])
     for idx, why in sorted(bad.items())[:20]:
         clause = why[0][2] if why and len(why[0]) > 2 else 'rejected'
         ctx.violation(f'compact:chains:{why[0][1] if why else "?"}:{clause[:60]}',
                       f'chain list rejected by TraceOpChains at record {why[0][0] if why else "?"}: {clause}',
-                      dict(kind='chains', case=cl_cases[idx]))
+                      dict(kind='chains', seed=ctx.seed, tier=ctx.tier, index=idx + off1, case=cl_cases[idx]))
 
     # ------------------------------------------------------------------ E: operator Schmidt rank
     mcases = model_cases(ctx, rng)
@@ -146,10 +158,17 @@ def run(ctx):
     ctx.sample([dict(model=r['model'], L=r['L'], cut=r['cut'], bond=r['bond'], rankq=r['rankq'], shape=[len(r['mats'][0]), len(r['mats'][0][0]) if r['mats'][0] else 0])
                 for tr in rtraces[:4] for r in tr if r['ev'] == 'cut'][:8])
     ctx.notes['rank_cuts_checked'] = sum(1 for tr in rtraces for r in tr if r['ev'] == 'cut')
+    off2 = 0
+    if target is not None:
+        if target[0] == 'rank' and target[1] is not None and 0 <= int(target[1]) < len(rtraces):
+            off2 = int(target[1])
+            rtraces, keep = [rtraces[off2]], [keep[off2]]
+        elif target[0] == 'chains':
+            rtraces, keep = [], []
     bad = validate_chunks(ctx, 'TraceCompact', 'tr', rtraces, chunk=2)
     for idx, why in sorted(bad.items()):
         clause = why[0][2] if why and len(why[0]) > 2 else 'rejected'
         if clause.startswith('ORACLE'):
             raise tlc.TlcMachineryError(f'rank oracle disagreement for {keep[idx]}: {why}')
         ctx.violation(f'compact:rank:{keep[idx][0]}:{clause[:50]}',
-                      f'{keep[idx]}: record {why[0][0] if why else "?"}: {clause}', dict(kind='rank', case=list(keep[idx])))
+                      f'{keep[idx]}: record {why[0][0] if why else "?"}: {clause}', dict(kind='rank', seed=ctx.seed, tier=ctx.tier, index=idx + off2, case=list(keep[idx])))
